@@ -695,7 +695,7 @@ func PhiEdges(fn *ssa.Function, name string, pred func(v ssa.Value) bool) []Edge
 				continue
 			}
 			for i, e := range phi.Edges {
-				if _, isPhi := e.(*ssa.Phi); isPhi || !pred(e) {
+				if ep, isPhi := e.(*ssa.Phi); (isPhi && ep.Comment == name) || !pred(e) {
 					continue
 				}
 				pb := b.Preds[i]
@@ -732,6 +732,31 @@ func Nearest(fn *ssa.Function, edges []Edge, sinks []ssa.Instruction) []Edge {
 		if h != nil {
 			out = append(out, e)
 		}
+	}
+	return out
+}
+
+// CallOKEdgesDirect: nil-error edges of branches that test the call's own
+// error value (not a variable the error was merged into).
+func CallOKEdgesDirect(call ssa.CallInstruction) []Edge {
+	ev := ErrValue(call)
+	if ev == nil || ev.Referrers() == nil {
+		return nil
+	}
+	var out []Edge
+	for _, r := range *ev.Referrers() {
+		x, ok := r.(*ssa.BinOp)
+		if !ok || (x.Op != token.EQL && x.Op != token.NEQ) {
+			continue
+		}
+		other := x.Y
+		if x.Y == ev {
+			other = x.X
+		}
+		if c, ok := other.(*ssa.Const); !ok || c.Value != nil {
+			continue
+		}
+		out = append(out, boolEdges(x, x.Op == token.EQL)...)
 	}
 	return out
 }
